@@ -395,7 +395,7 @@ static void RegressCutAfter()
    TreeSnap s; B.insp->Snapshot(s);
    if (B.SessionAttached(c->id) || CountUnder(s, c->root, true) != 0) vh::viol("regress|cutafter_session_remains", "client cut 100 bytes into a 350-byte frame: session or nodes remain");
    if (w->mirror.count(c->root + "/first") || w->mirror.count(c->root + "/second")) vh::viol("regress|cutafter_witness_not_told", "witness still mirrors a node of the cut client");
-   if (w->removalNotices < 1) Abort("CutAfter: the witness never saw a removal notice");
+   if (w->removalNotices < 1) vh::viol("regress|cutafter_witness_not_told", "the witness never received a removal notice for the cut client's node");
 }
 // scripted isolation witnesses: each command alone must leave the victims untouched, and be refused where documented
 static void RegressIsolation()
